@@ -567,13 +567,51 @@ theorem published_pairwise (calls : List Call) : ∀ (hist : List Call) (s : St)
         have := published_ge cs _ _ hi' snap hsn
         rw [h3] at this; simp at this; omega
 
-/-- reachable store states -/
-def Reachable (s : St) : Prop := ∃ calls, s = finalState St.init calls
+/-- what a well-formed complete snapshot contains: exactly one stored entry per expected operator (with the
+snapshot's id), no other entries, every expected source runner recorded exactly once, and the split states are
+those runners' reported states, each runner's once -/
+theorem complete_entries {snap : Snap} (hw : snap.WF) (hc : snap.isComplete = true) :
+    (∀ o ∈ snap.expectedOps, ∃ e ∈ snap.opEntries, e.op = o ∧ e.cp = snap.id) ∧
+    (snap.opEntries.map (·.op)).Nodup ∧
+    (∀ e ∈ snap.opEntries, e.op ∈ snap.expectedOps ∧ e.cp = snap.id) ∧
+    (∀ r ∈ snap.expectedSrs, r ∈ snap.srAcks.map (·.1)) ∧
+    (snap.srAcks.map (·.1)).Nodup ∧
+    (∀ a ∈ snap.srAcks, a.1 ∈ snap.expectedSrs) ∧
+    snap.splitStates = snap.srAcks.flatMap (·.2) := by
+  simp only [Snap.isComplete, Bool.and_eq_true, all_true_iff] at hc
+  refine ⟨?_, hw.opEntNodup, ?_, ?_, hw.srNodup, ?_, hw.splits⟩
+  · intro o ho
+    obtain ⟨⟨o', b⟩, hm, rfl⟩ := List.mem_map.mp ho
+    have hb : b = true := hc.2 _ hm
+    subst hb
+    obtain ⟨e, he, heq⟩ := List.mem_map.mp ((hw.opDone o').mp hm)
+    exact ⟨e, he, heq, hw.opCp e he⟩
+  · intro e he
+    have : (e.op, true) ∈ snap.ops := (hw.opDone e.op).mpr (List.mem_map.mpr ⟨e, he, rfl⟩)
+    exact ⟨List.mem_map.mpr ⟨_, this, rfl⟩, hw.opCp e he⟩
+  · intro r hr
+    obtain ⟨⟨r', b⟩, hm, rfl⟩ := List.mem_map.mp hr
+    have hb : b = true := hc.1 _ hm
+    subst hb
+    exact (hw.srDone r').mp hm
+  · intro a ha
+    have : (a.1, true) ∈ snap.srs := (hw.srDone a.1).mpr (List.mem_map.mpr ⟨a, ha, rfl⟩)
+    exact List.mem_map.mpr ⟨_, this, rfl⟩
+
+/-- a store right after start-up (`NewStore`, `LoadCheckpoint` from local files or from a savepoint): nothing is
+pending, the counter is whatever was loaded -/
+def Booted (s0 : St) : Prop := s0.pending = none
+
+theorem inv_booted {s0 : St} (h : Booted s0) (hist : List Call) : Inv hist s0 := by
+  intro p hp; rw [h] at hp; exact absurd hp (by simp)
+
+/-- store states reachable by public calls from any start-up state (any loaded counter) -/
+def Reachable (s : St) : Prop := ∃ s0 calls, Booted s0 ∧ s = finalState s0 calls
 
 theorem reachable_inv {s : St} (h : Reachable s) : ∃ hist, Inv hist s := by
-  obtain ⟨calls, rfl⟩ := h
+  obtain ⟨s0, calls, hb, rfl⟩ := h
   suffices ∀ (cs hist : List Call) (s : St), Inv hist s → ∃ hist', Inv hist' (finalState s cs) from
-    this calls [] St.init (inv_init [])
+    this calls [] s0 (inv_booted hb [])
   intro cs
   induction cs with
   | nil => intro hist s hi; exact ⟨hist, hi⟩
